@@ -909,3 +909,147 @@ func HarnessC08SizedFieldsWriteReadBack() {
 	}
 	verifrt.Assert(fits && goSees == x, "go-sees-the-value-written-to-a-sized-field:"+names[k])
 }
+
+// ---- more shapes: slices of structs, (value, error) results, []byte, errors
+// as arguments, float32, unsupported map keys ----
+
+type c08Shapes struct {
+	Items []c08Inner
+	F32   float32
+	Raw   []byte
+
+	gotErr   error
+	gotBytes []byte
+	calls    int
+}
+
+func (s *c08Shapes) Div(a, b int) (int, error) {
+	s.calls++
+	if b == 0 {
+		return 0, errors.New("division by zero")
+	}
+	return a / b, nil
+}
+func (s *c08Shapes) TakeErr(e error) string { s.calls++; s.gotErr = e; return "ok" }
+func (s *c08Shapes) TakeBytes(b []byte) []byte {
+	s.calls++
+	s.gotBytes = b
+	return append([]byte{0x2a}, b...)
+}
+func (s *c08Shapes) First() c08Inner      { return s.Items[0] }
+func (s *c08Shapes) Narrow(x int64) int32 { s.calls++; return int32(x) }
+
+func HarnessC08MoreShapes() {
+	n1, n2 := verifrt.Int(), verifrt.Int()
+	st := &c08Shapes{Items: []c08Inner{{N: n1, S: "a"}, {N: n2, S: "b"}}, F32: 0.5, Raw: []byte{verifrt.Uint8(), 2}}
+	conv, err := NewTypeConverter(reflect.TypeOf(st))
+	verifrt.Assert(err == nil, "struct-with-these-shapes-is-convertible")
+	if err != nil {
+		return
+	}
+	var obj Object
+	p := c08Catch(func() { obj, err = conv.From(st) })
+	verifrt.Assert(!p && err == nil, "conversion-never-panics")
+	px, ok := obj.(*Proxy)
+	if p || err != nil || !ok {
+		return
+	}
+	switch verifrt.Choose(9) {
+	case 0: // slice of structs reads as a list of proxies with equal contents
+		var items Object
+		p := c08Catch(func() { items, _ = px.GetAttr("Items") })
+		verifrt.Assert(!p, "field-read-never-panics")
+		if !p {
+			l, isL := items.(*List)
+			verifrt.Assert(isL && len(l.items) == 2, "slice-of-structs-reads-as-a-list")
+			if isL && len(l.items) == 2 {
+				ip, isP := l.items[1].(*Proxy)
+				verifrt.Assert(isP, "struct-element-is-a-proxy")
+				if isP {
+					nv, _ := ip.GetAttr("N")
+					got, okN := c08IntContent(nv)
+					verifrt.Assert(okN && got == int64(n2), "struct-element-field-content-equal")
+				}
+			}
+		}
+	case 1: // (value, error) results
+		a, b := verifrt.Int64(), verifrt.Int64()
+		verifrt.Assume(b != -1) // MinInt64 / -1 is Go's own trap
+		res, found, p := c08CallMethodOn(px, "Div", NewInt(a), NewInt(b))
+		verifrt.Assert(found && !p, "method-call-never-panics")
+		if found && !p {
+			verifrt.Reach("div")
+			if b == 0 {
+				e, isErr := res.(*Error)
+				verifrt.Assert(isErr && e.Value().Error() == "division by zero", "go-error-result-becomes-a-script-error")
+			} else {
+				got, okR := c08IntContent(res)
+				verifrt.Assert(okR && got == int64(int(a)/int(b)), "value-result-arrives-when-the-error-is-nil")
+			}
+		}
+	case 2: // error as argument
+		msg := verifrt.String(1)
+		res, found, p := c08CallMethodOn(px, "TakeErr", NewError(errors.New("e"+msg)))
+		verifrt.Assert(found && !p, "method-call-never-panics")
+		if found && !p {
+			if _, isErr := res.(*Error); !isErr {
+				verifrt.Reach("err-arg")
+				verifrt.Assert(st.gotErr != nil && st.gotErr.Error() == "e"+msg, "error-argument-arrives")
+			}
+		}
+	case 3: // []byte argument and result
+		b0 := verifrt.Uint8()
+		res, found, p := c08CallMethodOn(px, "TakeBytes", NewByteSlice([]byte{b0, 7}))
+		verifrt.Assert(found && !p, "method-call-never-panics")
+		if found && !p {
+			verifrt.Reach("bytes")
+			verifrt.Assert(len(st.gotBytes) == 2 && st.gotBytes[0] == b0 && st.gotBytes[1] == 7, "byte-slice-argument-arrives")
+			bs, isBS := res.(*ByteSlice)
+			verifrt.Assert(isBS && len(bs.value) == 3 && bs.value[0] == 0x2a && bs.value[1] == b0, "byte-slice-result-arrives")
+		}
+	case 4: // struct value result
+		res, found, p := c08CallMethodOn(px, "First")
+		verifrt.Assert(found && !p, "method-call-never-panics")
+		if found && !p {
+			verifrt.Reach("struct-result")
+			ip, isP := res.(*Proxy)
+			verifrt.Assert(isP, "struct-result-is-a-proxy")
+			if isP {
+				nv, _ := ip.GetAttr("N")
+				got, okN := c08IntContent(nv)
+				verifrt.Assert(okN && got == int64(n1), "struct-result-content-equal")
+			}
+		}
+	case 5: // a narrowing result arrives as Go computed it
+		x := verifrt.Int64()
+		res, found, p := c08CallMethodOn(px, "Narrow", NewInt(x))
+		verifrt.Assert(found && !p, "method-call-never-panics")
+		if found && !p {
+			got, okR := c08IntContent(res)
+			verifrt.Assert(okR && got == int64(int32(x)), "int32-result-arrives")
+		}
+	case 6: // []byte field
+		var raw Object
+		p := c08Catch(func() { raw, _ = px.GetAttr("Raw") })
+		verifrt.Assert(!p, "field-read-never-panics")
+		if !p {
+			bs, isBS := raw.(*ByteSlice)
+			verifrt.Assert(isBS && len(bs.value) == 2 && bs.value[0] == st.Raw[0], "byte-slice-field-reads-as-bytes")
+		}
+	case 7: // float32 field keeps a value that float32 represents exactly
+		var serr error
+		p := c08Catch(func() { serr = px.SetAttr("F32", NewFloat(0.25)) })
+		verifrt.Assert(!p, "field-write-never-panics")
+		if !p && serr == nil {
+			verifrt.Assert(st.F32 == 0.25, "go-sees-the-written-float32-field")
+		}
+	case 8: // maps with non-string keys are rejected, not a panic
+		var cerr error
+		p := c08Catch(func() { _, cerr = NewTypeConverter(reflect.TypeOf(map[int]string{})) })
+		verifrt.Assert(!p && cerr != nil, "map-with-int-keys-is-rejected-with-an-error")
+	}
+}
+
+func c08CallMethodOn(px *Proxy, name string, args ...Object) (res Object, found, panicked bool) {
+	return c08CallMethod(px, name, args...)
+}
